@@ -386,7 +386,7 @@ func oddRequest(rt *rapid.T, p *pool, label string) (*gpb.SetRequest, []string) 
 	for i := 0; i < nmut; i++ {
 		// nil elements of repeated fields (Go-only states) have low weight: one slot each in the middle of the list
 		mut := rapid.SampledFrom([]string{"nil-path", "nil-val", "odd-path", "odd-val", "dup-leaflist", "empty-update", "odd-prefix", "odd-delete", "nil-update", "json-mutated",
-			"nil-delete", "dup-update", "update-to-replace", "duplicates-field", "add-odd-update", "odd-path", "odd-val", "json-mutated", "nil-val", "nil-path"}).Draw(rt, label+".rmut")
+			"nil-delete", "dup-update", "update-to-replace", "duplicates-field", "add-odd-update", "origin-clash", "odd-path", "odd-val", "json-mutated", "nil-val", "nil-path"}).Draw(rt, label+".rmut")
 		applied := true
 		switch mut {
 		case "nil-update":
@@ -441,6 +441,26 @@ func oddRequest(rt *rapid.T, p *pool, label string) (*gpb.SetRequest, []string) 
 		case "odd-prefix":
 			op, _ := oddPath(rt, p, label+".pfx")
 			req.Prefix = op
+		case "origin-clash":
+			// prefix and a path with different non-empty origins (or targets): JoinPaths refuses them
+			if req.Prefix == nil {
+				req.Prefix = &gpb.Path{}
+			}
+			var victim *gpb.Path
+			if l, i := pickUpd(); l != nil && (*l)[i] != nil && (*l)[i].Path != nil {
+				victim = (*l)[i].Path
+			} else if len(req.Delete) > 0 && req.Delete[0] != nil {
+				victim = req.Delete[0]
+			}
+			if victim == nil {
+				applied = false
+				break
+			}
+			if rapid.Bool().Draw(rt, label+".clashtarget") {
+				req.Prefix.Target, victim.Target = "dev1", "dev2"
+			} else {
+				req.Prefix.Origin, victim.Origin = "openconfig", "cli"
+			}
 		case "nil-delete":
 			req.Delete = append(req.Delete, nil)
 		case "odd-delete":
@@ -509,7 +529,7 @@ func oddNotifs(rt *rapid.T, p *pool, label string) ([]*gpb.Notification, []strin
 	nmut := rapid.SampledFrom([]int{0, 1, 1, 2, 3}).Draw(rt, label+".nmut")
 	for i := 0; i < nmut; i++ {
 		mut := rapid.SampledFrom([]string{"nil-path", "nil-val", "odd-prefix", "delete", "odd-delete", "atomic", "nil-update", "json-update", "nil-notification", "odd-val", "odd-path", "empty-notification", "dup-leaflist",
-			"json-update", "odd-val", "odd-path", "atomic", "delete"}).Draw(rt, label+".nmutk")
+			"json-update", "odd-val", "odd-path", "atomic", "delete", "origin-clash"}).Draw(rt, label+".nmutk")
 		var n *gpb.Notification
 		if len(ns) > 0 {
 			n = ns[rapid.IntRange(0, len(ns)-1).Draw(rt, label+".nidx")]
@@ -537,6 +557,15 @@ func oddNotifs(rt *rapid.T, p *pool, label string) ([]*gpb.Notification, []strin
 		case "odd-prefix":
 			if n != nil {
 				n.Prefix, _ = oddPath(rt, p, label+".pfx")
+			}
+		case "origin-clash":
+			applied = false
+			if n != nil && len(n.Update) > 0 && n.Update[0] != nil && n.Update[0].Path != nil {
+				if n.Prefix == nil {
+					n.Prefix = &gpb.Path{}
+				}
+				n.Prefix.Origin, n.Update[0].Path.Origin = "openconfig", "cli"
+				applied = true
 			}
 		case "delete":
 			if n != nil && len(p.insts) > 0 {
